@@ -275,7 +275,7 @@ func toPorcupine(ops []*Op, relax map[string]bool) []porcupine.Operation {
 	for _, o := range ops {
 		in := mIn{cmd: o.Cmd, arg: opArg(o), open: o.Status != "ok"}
 		if relax[o.Cmd] && isPrecheckReply(o) {
-			in.relax = true
+			continue // excused: a no-op in any state, i.e. not part of the history
 		}
 		if relax["del"] && isSwallowedDelCandidate(o) {
 			in.open = true
@@ -305,8 +305,8 @@ type KeyVerdict struct {
 
 // checkKey runs the accounting checks and porcupine on one key's history
 // (which must already contain the final read).
-func checkKey(family, key string, ops []*Op, timeout time.Duration, swallowedDelErrors int) KeyVerdict {
-	kv := KeyVerdict{Key: key, Family: family, Ops: len(ops)}
+func checkKey(family, key string, ops []*Op, timeout time.Duration, swallowedDelErrors int) (kv KeyVerdict) {
+	kv = KeyVerdict{Key: key, Family: family, Ops: len(ops)}
 	for _, o := range ops {
 		if o.Status != "ok" {
 			kv.Open++
@@ -341,6 +341,7 @@ func checkKey(family, key string, ops []*Op, timeout time.Duration, swallowedDel
 	// illegal: is it explained by the node-local pre-check replies and/or by
 	// swallowed DEL errors alone? Find a smallest set of excuses that makes the
 	// history linearizable; every member gets its own signature.
+	relaxedTimeout := false
 	has := map[string]bool{}
 	for _, o := range ops {
 		if isPrecheckReply(o) {
@@ -355,7 +356,12 @@ func checkKey(family, key string, ops []*Op, timeout time.Duration, swallowedDel
 		for c := range has {
 			cands = append(cands, c)
 		}
-		sort.Strings(cands)
+		sort.Slice(cands, func(i, j int) bool { // pre-check excuses first, "del" last
+			if (cands[i] == "del") != (cands[j] == "del") {
+				return cands[j] == "del"
+			}
+			return cands[i] < cands[j]
+		})
 		var subsets [][]string
 		for _, c := range cands {
 			subsets = append(subsets, []string{c})
@@ -379,7 +385,10 @@ func checkKey(family, key string, ops []*Op, timeout time.Duration, swallowedDel
 			for _, c := range sub {
 				relax[c] = true
 			}
-			r, _ := porcupine.CheckOperationsVerbose(model, toPorcupine(ops, relax), timeout)
+			r, _ := porcupine.CheckOperationsVerbose(model, toPorcupine(ops, relax), timeout/2)
+			if r == porcupine.Unknown {
+				relaxedTimeout = true
+			}
 			if r != porcupine.Ok {
 				continue
 			}
@@ -399,6 +408,12 @@ func checkKey(family, key string, ops []*Op, timeout time.Duration, swallowedDel
 			kv.Detail += strings.Join(parts, "; ")
 			return kv
 		}
+	}
+	if relaxedTimeout {
+		// an excuse could not be decided: no verdict for this key
+		kv.Result, kv.Signature = "unknown", ""
+		kv.Detail = "history is not linearizable as recorded; the re-check with pre-check replies excused timed out"
+		return kv
 	}
 	if kv.Result != "illegal" {
 		kv.Result, kv.Signature = "illegal", "non-linearizable/"+family
